@@ -78,6 +78,9 @@ enum Ev {
     Reset,
     /// toggle to the other version (or create with v1)
     Write(usize),
+    /// like Write, but the new file carries a modification time OLDER than
+    /// anything seen so far (a restored backup, `cp -p`, a tzdata downgrade)
+    WriteOld(usize),
     Touch(usize),
     Remove(usize),
     Advance(u64),
@@ -96,6 +99,7 @@ fn alphabet() -> Vec<Ev> {
     for n in 0..3 {
         v.push(Ev::Write(n));
     }
+    v.push(Ev::WriteOld(0));
     v.push(Ev::Touch(1));
     for n in 0..3 {
         v.push(Ev::Remove(n));
@@ -123,12 +127,17 @@ struct Disk {
     kind: Kind,
     root: PathBuf,
     mtime_ctr: u64,
+    /// when set, the next modification time handed out runs backwards
+    older: bool,
     state: [St; 3],
 }
 
 impl Disk {
     fn next_mtime(&mut self) -> SystemTime {
         self.mtime_ctr += 1;
+        if std::mem::take(&mut self.older) {
+            return SystemTime::UNIX_EPOCH + Duration::from_secs(1_500_000_000 - self.mtime_ctr * 7);
+        }
         SystemTime::UNIX_EPOCH + Duration::from_secs(1_600_000_000 + self.mtime_ctr * 7)
     }
     fn zone_path(&self, n: usize) -> PathBuf {
@@ -261,7 +270,8 @@ fn run_history(r: &Report, sec: &str, disk: &mut Disk, evs: &[Ev], hist_id: &str
                 }
                 reset_seq = seq;
             }
-            Ev::Write(n) => {
+            Ev::Write(n) | Ev::WriteOld(n) => {
+                disk.older = matches!(*ev, Ev::WriteOld(_));
                 disk.state[n] = match disk.state[n] {
                     St::Absent => St::V(1),
                     St::V(1) => St::V(2),
@@ -394,7 +404,7 @@ fn main() {
         let root = PathBuf::from(format!("/verif/.build/c19/{}-{}-{}", kind_s, std::process::id(), i));
         let _ = std::fs::remove_dir_all(&root);
         std::fs::create_dir_all(&root).unwrap();
-        let mut disk = Disk { kind, root: root.clone(), mtime_ctr: 0, state: [St::Absent; 3] };
+        let mut disk = Disk { kind, root: root.clone(), mtime_ctr: 0, older: false, state: [St::Absent; 3] };
         let mut lookups = 0;
         let mut hists = 0;
         // the concatenated back-end gets one level less depth (its get() path has no name index)
